@@ -102,3 +102,53 @@ pub fn c08_twin(plan: &Plan, out: &RunOut) -> Option<Violation> {
     }
     None
 }
+
+/// C17: the same plan executed again with other hash keys (and per-map keys on/off) and other
+/// handshake random numbers. Nothing observable may differ.
+pub fn c17_twin(plan: &Plan, out: &RunOut) -> Option<Violation> {
+    use crate::rng::mix;
+    use crate::world::Ev;
+    for j in 1..=2u64 {
+        let mut t = plan.clone();
+        t.cfg.hash_seed = mix(plan.cfg.hash_seed ^ (j * 0x1234_5678_9abc));
+        t.cfg.rng_seed = mix(plan.cfg.rng_seed ^ (j * 0xfeed_f00d));
+        t.cfg.hash_per_map = if j == 1 { !plan.cfg.hash_per_map } else { plan.cfg.hash_per_map };
+        let tout = run_plan(&t).ok()?;
+        if let Some(x) = tout.violations.first() {
+            return Some(v(&format!("c17.twin:{}", x.class), format!("execution {j} with other hash/random seeds violates {}: {}", x.class, x.text), x.node, x.frame));
+        }
+        for i in 0..out.nodes.len() {
+            let (a, b) = (&out.nodes[i], &tout.nodes[i]);
+            if a.req_trace != b.req_trace || a.final_frame != b.final_frame {
+                // find the first frame whose last-used inputs or state differ, for the report
+                let f = (0..a.hist.len().min(b.hist.len())).find(|&f| a.hist[f] != b.hist[f]);
+                return Some(v(
+                    "c17.requests_differ",
+                    format!(
+                        "node {i}: the request lists differ between two executions that only differ in hash keys and handshake random numbers (final frames {} / {}, first differing state at frame {:?})",
+                        a.final_frame, b.final_frame, f
+                    ),
+                    i,
+                    f.map(|x| x as i32).unwrap_or(-1),
+                ));
+            }
+            let addrs: std::collections::BTreeSet<u16> = a.events.iter().chain(b.events.iter()).filter_map(|(_, e)| e.addr()).collect();
+            for x in addrs {
+                let ea: Vec<&(u64, Ev)> = a.events.iter().filter(|(_, e)| e.addr() == Some(x)).collect();
+                let eb: Vec<&(u64, Ev)> = b.events.iter().filter(|(_, e)| e.addr() == Some(x)).collect();
+                if ea != eb {
+                    return Some(v("c17.events_differ", format!("node {i}, address {x}: event sequences differ between executions: {:?} vs {:?}", ea.iter().take(12).collect::<Vec<_>>(), eb.iter().take(12).collect::<Vec<_>>()), i, a.final_frame));
+                }
+            }
+            let wa: Vec<&(u64, Ev)> = a.events.iter().filter(|(_, e)| e.addr().is_none()).collect();
+            let wb: Vec<&(u64, Ev)> = b.events.iter().filter(|(_, e)| e.addr().is_none()).collect();
+            if wa != wb {
+                return Some(v("c17.events_differ", format!("node {i}: WaitRecommendation sequences differ between executions"), i, a.final_frame));
+            }
+        }
+        if out.sched_hash != tout.sched_hash {
+            return Some(v("c17.traffic_differs", "the executed schedule (which packet kinds travelled on which link, in which order) differs between executions that only differ in hash keys and handshake random numbers".to_owned(), 0, 0));
+        }
+    }
+    None
+}
